@@ -51,7 +51,7 @@ def _cases(draw, dmax):
     a = draw(S.operand(d, max_len=cap))
     b = draw(S.operand(d, max_len=cap))
     return {"cfg": cfg, "a": a, "b": b, "mode": draw(st.sampled_from(["generic", "generic", "frac"])),
-            "cse": draw(st.booleans())}
+            "cse": draw(st.booleans()), "wrapper": draw(st.integers(0, 4)) == 0}
 
 
 def cases(tier):
@@ -93,7 +93,7 @@ def evaluate(case):
     cfg = case["cfg"]
     ref = RefAlgebra(cfg)
     Rr = R(ref.d, ref.T)
-    alg = kd.build_algebra(cfg, cse=case["cse"])
+    alg = kd.build_algebra(cfg, cse=case["cse"], wrapper=bool(case.get("wrapper")))
     ka, kb = case["a"]["keys"], case["b"]["keys"]
     va, vb = _values(case["a"], case["mode"], "a"), _values(case["b"], case["mode"], "b")
     x, y = kd.mk(alg, ka, va), kd.mk(alg, kb, vb)
@@ -145,7 +145,9 @@ def evaluate(case):
         labels.append("lazy:d>=7")
     if not ka or not kb:
         labels.append("operand:empty")
-    key = [cfg["sig"], cfg.get("start"), cfg.get("basis"), ka, kb, case["cse"], case["mode"]]
+    key = [cfg["sig"], cfg.get("start"), cfg.get("basis"), ka, kb, case["cse"], case["mode"], bool(case.get("wrapper"))]
+    if case.get("wrapper"):
+        labels.append("opt:wrapper")
     return Info(nontrivial, labels, key, sample={"result_keys": sorted(got)} if nontrivial else None)
 
 
